@@ -21,6 +21,10 @@ func runC11(c *Ctx) {
 	parallel(nWS, 14, func(i int) {
 		r := root.Fork(uint64(i))
 		sw := GenScopeWS(r, ScopeCfg{JoinPct: -1, GluePct: -1, Zoo: r.Fork(0x7a6f6f).Chance(1, 4)})
+		if len(sw.Files) >= 2 && r.Fork(0x726f6f74).Chance(1, 8) {
+			sw.Reroot([]string{"rootA", "rootB"}) // the files are spread over two workspace folders next to each other
+			c.Count("multi_root_workspaces", 1)
+		}
 		c.Eval(1)
 		checkC11WS(c, sw, fmt.Sprintf("c11w%d", i), r.Fork(99))
 		if i < 1 {
@@ -308,7 +312,7 @@ func checkC11WSDirty(c *Ctx, sw *ScopeWS, tag string, r *Rng, dirtyRel string) {
 				continue
 			}
 			// sampled: diagnostics of a fresh server on the renamed workspace equal the original's up to the name
-			if !sampled && dirtyRel == "" && r.Chance(1, 40) {
+			if !sampled && dirtyRel == "" && len(sw.Roots) == 0 && r.Chance(1, 40) {
 				sampled = true
 				if baseView == nil {
 					baseView = srv.View()
